@@ -8,6 +8,10 @@ import (
 	"errors"
 	"fmt"
 	"os"
+	"strings"
+	"time"
+
+	"github.com/pion/stun/v3"
 
 	"github.com/pion/ice/v4/internal/taskloop"
 	"github.com/pion/ice/v4/internal/zzmc"
@@ -171,6 +175,10 @@ func checkC10(c *runCtx) {
 	csExplore(c, "api-linearizable", b, dl, nil)
 	// coarse mode: no two mutators are inside the agent at once (application callbacks as overlap detectors)
 	csExplore(c, "api-mutators-overlap", b, dl, nil)
+	// coarse mode with ownership tracking: every public method, in every phase of a session, against the lockset discipline
+	for _, role := range []string{"controlling", "controlled"} {
+		csExplore(c, "api-ownership-"+role, b-1, dl, nil)
+	}
 	c10racePass(c)
 }
 
@@ -406,6 +414,126 @@ func c10overlap() zzmc.Scenario {
 				_ = a.Close()
 
 				return fmt.Sprint(res, len(w.sentLog)), fail
+			}
+		},
+	}
+}
+
+// ---------------------------------------------------------------- coarse mode: ownership of the agent's fields
+
+// The instrumented build reports every access to a field of *Agent (zzmc.Access). From the moment the agent
+// is handed to the application until its loop has ended, a field that is written must keep a lock common to
+// all its accesses, where running on the agent's loop goroutine counts as holding the loop's lock (lockset
+// discipline). One application thread calls every public method in every phase of a session (started,
+// connected, restarted, closed) while the scripted peer's traffic and the ticks are processed concurrently.
+func init() {
+	csScenarios["api-ownership-controlling"] = func() zzmc.Scenario { return c10ownership("controlling") }
+	csScenarios["api-ownership-controlled"] = func() zzmc.Scenario { return c10ownership("controlled") }
+}
+
+func c10ownership(role string) zzmc.Scenario {
+	return zzmc.Scenario{
+		Name:     "api-ownership-" + role,
+		Focus:    []string{"taskloop.go"},
+		MaxSteps: 20000,
+		TimeStep: time.Millisecond,
+		MaxAdv:   2000,
+		Setup: func(s *zzmc.Sched) func(string) (string, string) {
+			raw, _ := json.Marshal(soloCfg{Role: role, Locals: 2, Remotes: 2, Renom: true})
+			sw := newSoloWorld(raw)
+			sw.onSend, sw.onDeliver = nil, nil // the ledger is not used here (and is not meant for concurrent use)
+			a, conn := sw.x.agent, sw.x.conn
+			zzmc.OwnStart("*ice.Agent", "taskloop.go:")
+			calls := 0
+			sel := "no selection before the restart"
+			api := func(phase string) {
+				rc, _ := NewCandidateHost(&CandidateHostConfig{Network: "udp", Address: "10.0.1.9", Port: 2900 + len(phase), Component: 1})
+				for _, f := range []func(){
+					func() { _, _ = a.GetLocalCandidates() },
+					func() { _, _ = a.GetRemoteCandidates() },
+					func() { _, _ = a.GetSelectedCandidatePair() },
+					func() { _ = a.GetCandidatePairsStats() },
+					func() { _, _ = a.GetSelectedCandidatePairStats() },
+					func() { _ = a.GetLocalCandidatesStats() },
+					func() { _ = a.GetRemoteCandidatesStats() },
+					func() { _, _, _ = a.GetLocalUserCredentials() },
+					func() { _, _, _ = a.GetRemoteUserCredentials() },
+					func() { _, _ = a.GetGatheringState() },
+					func() { _ = a.AddRemoteCandidate(rc) },
+					func() { _ = a.OnConnectionStateChange(func(ConnectionState) {}) },
+					func() { _ = a.OnSelectedCandidatePairChange(func(Candidate, Candidate) {}) },
+					func() { _ = a.OnCandidate(func(Candidate) {}) },
+					func() { _ = a.UpdateOptions(WithKeepaliveInterval(3 * time.Second)) },
+					func() { _ = a.SetRemoteCredentials(sw.peerUfrag, sw.peerPwd) },
+					func() {
+						l, r := Candidate(sw.x.cands[0]), Candidate(sw.rcands[0])
+						if sp, _ := a.GetSelectedCandidatePair(); sp != nil {
+							l, r = sp.Local, sp.Remote
+						}
+						_ = a.RenominateCandidate(l, r)
+					},
+					func() { _, _ = conn.Write([]byte("application data")) },
+					func() {
+						for _, in := range conn.GetCandidatePairsInfo() {
+							_, _ = conn.WriteToPair(in.ID, []byte("application data"))
+
+							break
+						}
+					},
+					func() { _, _ = conn.LocalAddr(), conn.RemoteAddr() },
+					func() { _, _ = conn.BytesSent(), conn.BytesReceived() },
+					func() { _ = conn.SetDeadline(time.Time{}) },
+					func() {
+						ctx, cancel := context.WithCancel(context.Background())
+						cancel()
+						_ = a.AwaitConnect(ctx)
+					},
+				} {
+					f()
+					calls++
+				}
+			}
+			answer := func() {
+				sw.mu.Lock()
+				pend := sw.pendingOut()
+				sw.inflight = nil
+				sw.mu.Unlock()
+				for _, d := range pend {
+					for _, sock := range sw.x.socks {
+						if sock.name == d.srcSock {
+							sock.in <- rxPacket{d.dst, sw.peerResponse(d.data, stun.ClassSuccessResponse, "", d.src)}
+						}
+					}
+				}
+			}
+			s.Go("APP", func() {
+				api("started")
+				// the session proceeds while the application keeps calling
+				for round := 0; round < 3; round++ {
+					sw.x.contact()
+					if role == "controlled" {
+						sw.x.socks[0].in <- rxPacket{sw.remotes[0].addr.String(), sw.peerRequest(peerReqOpts{uc: round > 0, nom: -1})}
+					}
+					answer()
+					api(fmt.Sprintf("round%d", round))
+					settle()
+				}
+				api("settled")
+				if a.getSelectedPair() != nil {
+					sel = "connected before the restart"
+				}
+				_ = a.Restart("", "")
+				api("restarted")
+				_ = a.Close()
+				api("closed")
+			})
+
+			return func(dead string) (string, string) {
+				reports, n := zzmc.OwnStop()
+				if dead != "" {
+					_ = a.Close()
+				}
+				return fmt.Sprintf("%d calls, %d field accesses, %s", calls, n, sel), strings.Join(reports, "; ")
 			}
 		},
 	}
